@@ -59,6 +59,8 @@ inductive Loc where
   /-- a call returned `r`, the reservation is still outstanding -/
   | rRet  (id : Nat) (r : Res)
   | rPub  (id idx guess : Nat)
+  /-- `am.r.len`: the index-based publication succeeded on sequence number `g`; about to load `head` for the length it answers -/
+  | rLen  (g : Nat)
   | rCan  (id idx guess : Nat)
   -- consumer: `consume_leaking_internal` + `consume_movable`
   | cFetch
@@ -128,10 +130,12 @@ def step (s : St) (t : Nat) : St :=
   -- `try_publish_leaked_internal_index`: CAS `tail` with the guessed id; re-guess from the lap of the reloaded tail
   | .rPub id idx g =>
       if s.tail = g then
-        setThr { s with tail := g + 1, accepted := s.accepted ++ [s.buf idx] } t
-               (.done (.pubIdx (some (max 1 (g - s.head)))))
+        setThr { s with tail := g + 1, accepted := s.accepted ++ [s.buf idx] } t (.rLen g)
       else if s.tail / s.N > g / s.N then setThr s t (.rPub id idx (idx + (s.tail / s.N) * s.N))
       else setThr s t (.rRet id (.pubIdx none))
+  -- `u32::max(1, previous_tail.overflowing_sub(head.load()).0)`: `head` is loaded AFTER the publication (no signed clamp here: when
+  -- consumers moved `head` past `g` in between, the `u32` difference wraps and the answer is a huge number)
+  | .rLen g => setThr s t (.done (.pubIdx (some (max 1 (U32.wsub (U32.wrap g) (U32.wrap s.head))))))
   -- `try_unleak_slot_index_internal`: CAS `enqueuer_tail` back; re-guess from the lap of `enqueuer_tail - 1`
   | .rCan id idx g =>
       if s.enqTail = g + 1 then setThr { s with enqTail := g } t (.done (.canIdx true))
@@ -218,6 +222,7 @@ def tagOf : Loc → Option (String × Nat)
   | .pPublish _ id _   => some ("am.p.publish", id)
   | .pLen id           => some ("am.p.len", id)
   | .rPub _ _ g        => some ("am.r.publish", g)
+  | .rLen g            => some ("am.r.len", g)
   | .rCan _ _ g        => some ("am.r.cancel", g)
   | .cFetch            => some ("am.c.fetch", 0)
   | .cLoadTail id      => some ("am.c.loadtail", id)
